@@ -16,7 +16,7 @@
 From Coq Require Import ZArith QArith Qabs List Bool.
 From QV Require Import Model.Num Model.Rounding Model.Quantity Model.Dim Model.Registry
      Proofs.QuantityProofs Proofs.DimProofs Proofs.DimPush Proofs.RegistryProofs
-     Proofs.DirectoryProofs Proofs.DimInv Proofs.C02Proofs Proofs.C02Dim.
+     Proofs.DirectoryProofs Proofs.DimInv Proofs.C02Proofs Proofs.C02Dim Proofs.C02Undef.
 
 (* resolution of a term against the directory: what it returns denotes the term *)
 Theorem C02_resolve_sound : forall dm s x r,
@@ -185,6 +185,27 @@ Theorem C02_defined_if_unit_declared : forall dm s x u,
   Reach dm s -> In u (st_units s) -> nf_eq (ru_nf u) (mkNf 1 (nf_dim x)) -> resolve s x <> None.
 Proof. exact R_defined_if_unit_declared. Qed.
 Print Assumptions C02_defined_if_unit_declared.
+
+(* ... and CONVERSELY: when no declared quantity type has the combined
+   dimension, no registered unit can be defined by the product / quotient, so
+   the resolution fails (UndefinedResultError) — "precisely when" *)
+Theorem C02_mul_undefined_if_no_type : forall dm s u v cu cv,
+  Reach dm s -> In u (st_units s) -> In v (st_units s) ->
+  find_cls s (ru_cls u) = Some cu -> find_cls s (ru_cls v) = Some cv ->
+  nf_dim (nf_mul (ru_nf u) (ru_nf v)) <> [] ->
+  (forall c, In c (st_classes s) -> rc_dim c <> dv_mul (rc_dim cu) (rc_dim cv)) ->
+  resolve s (nf_mul (ru_nf u) (ru_nf v)) = None.
+Proof. exact R_mul_undefined_if_no_type. Qed.
+Print Assumptions C02_mul_undefined_if_no_type.
+
+Theorem C02_div_undefined_if_no_type : forall dm s u v cu cv,
+  Reach dm s -> In u (st_units s) -> In v (st_units s) ->
+  find_cls s (ru_cls u) = Some cu -> find_cls s (ru_cls v) = Some cv ->
+  nf_dim (nf_mul (ru_nf u) (nf_inv (ru_nf v))) <> [] ->
+  (forall c, In c (st_classes s) -> rc_dim c <> dv_mul (rc_dim cu) (dv_inv (rc_dim cv))) ->
+  resolve s (nf_mul (ru_nf u) (nf_inv (ru_nf v))) = None.
+Proof. exact R_div_undefined_if_no_type. Qed.
+Print Assumptions C02_div_undefined_if_no_type.
 
 (* non-vacuity: a reachable directory with Length (m, km = 1000 m) and
    Area = Length**2 (reference unit m2): 3 km * 2 km = 6 000 000 m2 *)
